@@ -229,6 +229,28 @@ def describe_path(body, path):
     return " -> ".join("bb%d(%s:%d)" % (i, body.blocks[i]["span"]["file"].split("/")[-1], body.blocks[i]["span"]["line"]) for i in path)
 
 
+def _two_variant(b, sw):
+    """The switch in block sw reads the discriminant of a place whose type is Option / Result."""
+    d = b.blocks[sw]["term"]["discr"]
+    if d["k"] not in ("copy", "move") or d["place"]["p"]:
+        return False
+    sd = b.single_def(d["place"]["l"])
+    if not sd or sd[2] != "rv" or sd[3]["k"] != "discr":
+        return False
+    pl = sd[3]["place"]
+    ty = None
+    for pe in reversed(pl["p"]):
+        if pe["k"] == "field":
+            ty = pe.get("ty")
+            break
+        if pe["k"] != "deref":
+            break
+    if ty is None and all(pe["k"] == "deref" for pe in pl["p"]):
+        ty = b.ty(pl["l"])
+    ty = (ty or "").lstrip("&").replace("mut ", "")
+    return ty.startswith("std::result::Result<") or ty.startswith("std::option::Option<")
+
+
 class LeftrecLoop:
     """Structure of the seed-and-grow loop of a @leftrec wrapper (role-based):
     B = the local whose clones are inserted (best result), head = loop header,
@@ -285,7 +307,16 @@ class LeftrecLoop:
             val = labs[0]
             if ty == "bool":
                 val = mir.truth(val if val != "otherwise" else ("not", tuple(v for v, _ in t["targets"])))
-            out.append((norm(e), val, x))
+            ne = norm(e)
+            if val == "otherwise" and ne[0] == "discr" and len(t["targets"]) == 1 and t["targets"][0][0] in (0, 1):
+                # `if let` / guard-arm form of a two-variant match: the other variant
+                root = ne[1]
+                while root[0] in ("field", "downcast"):
+                    root = root[1]
+                tys = b.ty(root[1]) if root[0] == "local" else ""
+                if ne[1][0] == "local" and ("Result<" in tys or "Option<" in tys) or _two_variant(b, x):
+                    val = 1 - t["targets"][0][0]
+            out.append((ne, val, x))
         return out
 
     def iter_paths(self, start, stops):
